@@ -265,8 +265,8 @@ func vfPar(in *Interp, fn *ssa.Function, a []Value) Value {
 	for i, f := range fs {
 		bodies[i] = f.(FuncV)
 	}
+	in.parRegions++ // before the bodies run: a panic inside the region is schedule-dependent too
 	in.runParallel(bodies)
-	in.parRegions++
 	return nil
 }
 
